@@ -29,7 +29,7 @@ ASSUMPTIONS = [
 ]
 COMPONENTS = {"real": ["TradingEnv", "Transmitter", "Broker", "TrackRecord", "Rebalancing", "Trade", "rewards.*", "Exchange"],
               "harness": ["recording observers", "independent Fraction ledger", "reward model"], "stub": []}
-PROBE_FLOORS = {"step_without_trade": 100, "fees_positive": 300, "delay_positive": 97, "reward_clipped": 20,
+PROBE_FLOORS = {"step_without_trade": 100, "fees_positive": 300, "delay_positive": 97, "reward_clipped": 20, "plain_log_return_beyond_2": 12,
                 "reward_negative_with_risk_aversion": 20, "interest_credited": 100, "compounding_checked": 16,
                 "own_costs_ruin_injected": 19, "futures_chain_world": 45, "feature_values_account_at_every_quote": 80, "xy_rewards_checked": 45, "xy_reward_clip_binds": 150, "snapshot_with_margins_consistent": 2500, "entries_reread_at_the_end": 250}
 
@@ -165,6 +165,28 @@ def generate(rng, i):
             if op["op"] == "step" and rng.random() < 0.3 and env["space"]["type"] == "box":
                 op["action"] = [0.0] * len(op["action"])
     sc = {"kind": "epi", "envs": [env], "clock0": "1999-01-01T00:00:00", "script": script, "prng": rng.randrange(2 ** 31), "f11": f11}
+    if i % 9 == 4 and not f11 and env["space"]["type"] == "box" and len(env["grid"]) >= 3:
+        # a step over which the account multiplies: every quote from some timestep on is 40 times higher and the
+        # account is long throughout (|log return| of that step is well above 2; no stated reward caps it unless it says so).
+        # Laid out without consuming draws of the generator's stream
+        import random
+        r2 = random.Random("rally:{}".format(i))
+        grid = sorted(set(env["grid"]))
+        cut = grid[r2.randint(1, len(grid) - 1)]
+        for e in env["events"]:
+            if e["type"] == "nbbo" and e["t"] >= cut:
+                e["bid"] *= 40.0
+                e["ask"] *= 40.0
+        hi = env["space"].get("high", 1.0)
+        for op in script:
+            if op["op"] == "step" and isinstance(op["action"], list):
+                a = [min(abs(x), hi) for x in op["action"]]
+                if sum(a) < 0.3 and a:
+                    a[0] = min(hi, 0.5)
+                op["action"] = a
+        if r2.random() < 0.6:
+            env["reward"] = {"cls": "RewardLogReturn"}
+        sc["rally"] = True
     return sc
 
 
@@ -372,6 +394,8 @@ def execute(scenario):
                 break
             rewards.append(st["reward"])
             rs = env_spec.get("reward") or {}
+            if rs.get("cls") == "RewardLogReturn" and abs(want) > 2.0:
+                probe("plain_log_return_beyond_2")
             if rs.get("cls") == "LogReturn":
                 raw = math.log(nlv_now / reb["pre"]["nlv"]) / rs.get("scale", 1.0)
                 if abs(raw) > rs.get("clip", 2.0):
